@@ -1,15 +1,16 @@
 #!/bin/sh
 # seed_eval.sh <seeded-dir> [props...]: apply seeded/<id>/patch.diff to /repo, run the quick checks of the
+# (SEED_REPO=<worktree> uses a scratch worktree of /repo at the same commit instead of /repo itself)
 # given properties (default: the property named in meta.json), print their verdict lines, undo the patch.
 D="$(cd "$1" && pwd)"; shift
 PROPS="$@"
 [ -z "$PROPS" ] && PROPS=$(python3 -c "import json,sys;print(json.load(open('$D/meta.json'))['property'])")
-cd /repo || exit 2
+R="${SEED_REPO:-/repo}"; cd "$R" || exit 2
 git diff --quiet || { echo "/repo has local changes"; exit 2; }
 git apply "$D/patch.diff" || { echo "patch does not apply"; exit 2; }
 if ! (GOFLAGS=-mod=mod GOPROXY=off go build ./... 2>&1 | tail -3); then echo build-failed; fi
 for p in $PROPS; do
-  /verif/check $p quick > /tmp/seed_eval_$p.log 2>&1
+  VERIF_REPO="$R" /verif/check $p quick > /tmp/seed_eval_$p.log 2>&1
   rc=$?
   echo "== $p exit=$rc"
   grep -E "^VIOLATION|^  harness=|^INCONCLUSIVE|^REDUCED|^C[0-9]+ quick" /tmp/seed_eval_$p.log | cut -c1-260 | head -12
